@@ -313,35 +313,63 @@ func c07Case(c *core.Ctx, rng *rand.Rand, dir string, idx int, t0 time.Time, wea
 	close(stopAll)
 	bg.Wait()
 	if !withClose {
-		// drain whatever is pending so the reader goes idle, then compare
-		drained := make(chan struct{})
+		// Quiescence is a logical condition, not a sleep: a consumer keeps draining both
+		// channels; the stream is quiescent when the kernel queue of the Watcher's inotify
+		// descriptor is empty (FIONREAD == 0) and a sentinel created afterwards has been received.
+		sent := filepath.Join(base, "zz-sentinel-dir")
+		os.Mkdir(sent, 0o755)
+		sentSeen := make(chan string, 64)
+		stopDrain := make(chan struct{})
+		drainDone := make(chan struct{})
 		go func() {
-			defer close(drained)
+			defer close(drainDone)
 			for {
 				select {
-				case <-w.Events:
-				case <-w.Errors:
-				case <-time.After(3 * time.Millisecond):
+				case e, ok := <-w.Events:
+					if !ok {
+						return
+					}
+					if strings.HasPrefix(e.Name, sent+"/") {
+						select {
+						case sentSeen <- e.Name:
+						default:
+						}
+					}
+				case _, ok := <-w.Errors:
+					if !ok {
+						return
+					}
+				case <-stopDrain:
 					return
 				}
 			}
 		}()
-		<-drained
-		if bad, _ := twin.Invariant(w); bad != "" {
-			// the reader may still be working: retry a few times before believing it
-			for try := 0; try < 50 && bad != ""; try++ {
-				time.Sleep(2 * time.Millisecond)
+		quiescent := false
+		if err := w.Add(sent); err == nil {
+			mark := filepath.Join(sent, "m")
+			os.WriteFile(mark, nil, 0o644)
+			deadline := time.After(twin.WatchdogTimeout)
+		wait:
+			for {
 				select {
-				case <-w.Events:
-				case <-w.Errors:
-				default:
+				case n := <-sentSeen:
+					if n == mark {
+						quiescent = true
+						break wait
+					}
+				case <-deadline:
+					break wait
 				}
-				bad, _ = twin.Invariant(w)
 			}
-			if bad != "" {
-				c.Violate("tables-vs-kernel-after-concurrent-history", bad, nil)
-			}
+			w.Remove(sent)
 		}
+		if !quiescent {
+			c.Inconclusive("concurrent history: the final sentinel was not delivered before the watchdog; tables not judged")
+		} else if bad, _ := twin.Invariant(w); bad != "" {
+			c.Violate("tables-vs-kernel-after-concurrent-history", bad, nil)
+		}
+		close(stopDrain)
+		<-drainDone
 	}
 	core.WithWatchdog(twin.WatchdogTimeout, func() { w.Close() })
 	// overlap statistics
